@@ -728,9 +728,17 @@ func exec(op string) vlib.Res {
 		req.SetEdns0(1232, true)
 		servers := &authority.Servers{Zone: "."}
 		servers.List = append(servers.List, authority.NewServer(srvAddr, authority.IPv4))
-		ctx, cancel := context.WithTimeout(context.Background(), 3*time.Second)
-		defer cancel()
-		resp, err := S.r.Resolve(ctx, req, servers, true, 30, 0, false, nil)
+		var resp *dns.Msg
+		var err error
+		for attempt := 0; attempt < 3; attempt++ {
+			// a refusal is repeated: on a loaded host a lost loopback datagram looks like one
+			ctx, cancel := context.WithTimeout(context.Background(), 3*time.Second)
+			resp, err = S.r.Resolve(ctx, req.Copy(), servers, true, 30, 0, false, nil)
+			cancel()
+			if err == nil && resp != nil && resp.Rcode == 0 && len(resp.Answer) > 0 {
+				break
+			}
+		}
 		res := "refused"
 		if err == nil && resp != nil && resp.Rcode == 0 && len(resp.Answer) > 0 {
 			res = "answered ad=" + vlib.B(resp.AuthenticatedData)
